@@ -618,4 +618,14 @@ Section G.
     wfpar p -> follow_lt 0 rest -> plain_next rest -> (pends p = true -> follow_name rest) -> sizep p <= F ->
     param1 (pexpr F) (flatp p ++ rest) = Ok (erasep p, rest).
   Proof. intros. destruct main as (_ & M & _). apply M; assumption. Qed.
+
+  (* ---- the number of nodes is bounded by the number of tokens ---- *)
+  Lemma size_bound :
+    (forall s, size s <= 3 * length (flat s)) /\
+    (forall p, sizep p <= 3 * length (flatp p) + 1) /\
+    (forall ps, sizeps ps <= 3 * length (flatps ps) + 1).
+  Proof.
+    apply sp_mutind; intros; cbn [size sizep sizeps flat flatp flatps];
+      repeat (rewrite app_length || cbn [length]); try lia.
+  Qed.
 End G.
